@@ -9,6 +9,10 @@ A template (verus/*.rs.tmpl or kani_x/*.rs.tmpl) contains directives:
   //@  loop <k>: <clause line>                                          (inserted after the k-th loop header, before its `{`)
   //@  subst: <literal text> => <replacement>                           (explicit, listed rewrites of the body text)
   //@  resubst: <regex> => <replacement>                                (same with a regex; applies where it matches, no error if it does not)
+  //@  name-iter <k>: <ident>                                            (k-th loop must be `for PAT in EXPR {`; rewritten to `for PAT in <ident>: EXPR {` so that invariants can mention the iterator's ghost state)
+  //@  before-text "<anchor>": <ghost line>                              (inserted in front of the first occurrence of the anchor text in the body)
+  //@  body-start: <ghost line>                                          (inserted right after the opening brace of the body; proof blocks / listed assumptions only)
+  //@  exec-static                                                      (kind=static of type &str: emit `exec static N: &'static str ensures N@ == <lit>@ { <lit> }`; the literal is also available as ${lit:N} in later directive lines)
   //@  strip-attrs                                                      (drop #[...] attribute lines and doc comments in front of the item)
   //@  unimpl-trait                                                     (fn comes from `impl Trait for T`; emit as inherent fn)
   //@end
@@ -186,7 +190,12 @@ def loop_headers(body):
     return out
 
 
+def _expand_lits(line, lits):
+    return re.sub(r'\$\{lit:(\w+)\}', lambda m: lits[m.group(1)], line)
+
+
 def process_template(tmpl_text, repo):
+    lits = {}
     out = []
     report = []
     hashes = {}
@@ -219,6 +228,11 @@ def process_template(tmpl_text, repo):
             loops = {}
             substs = []
             pre = []
+            body_start = []
+            item_before_text = []
+            name_iter = {}
+            exec_static = False
+            directives = [_expand_lits(d, lits) for d in directives]
             for d in directives:
                 m = re.match(r'^//@\s+sig:\s?(.*)$', d)
                 if m:
@@ -244,22 +258,51 @@ def process_template(tmpl_text, repo):
                 if m:
                     pre.append(m.group(1))
                     continue
+                m = re.match(r'^//@\s+body-start:\s?(.*)$', d)
+                if m:
+                    body_start.append(m.group(1))
+                    continue
+                m = re.match(r'^//@\s+name-iter (\d+):\s?(\w+)\s*$', d)
+                if m:
+                    name_iter[int(m.group(1))] = m.group(2)
+                    continue
+                m = re.match(r'^//@\s+before-text "(.*?)":\s?(.*)$', d)
+                if m:
+                    item_before_text.append((m.group(1), m.group(2)))
+                    continue
+                if d.strip() == '//@  exec-static':
+                    exec_static = True
+                    continue
                 if d.strip() in ('//@  strip-attrs', '//@  unimpl-trait', '//@'):
                     continue
                 raise ExtractError('bad directive: ' + d)
             if ob is not None:
                 head = text[:ob - start]
                 body = text[ob - start:]
+                for anchor, ghost in item_before_text:
+                    pp = body.find(anchor)
+                    if pp < 0:
+                        raise ExtractError('%s: anchor text %r not found (code changed?)' % (ident, anchor))
+                    body = body[:pp] + ghost + '\n        ' + body[pp:]
+                    changes.append('before %r: inserted ghost line %r' % (anchor, ghost))
                 # loops first (indices into body)
-                if loops:
+                if loops or name_iter:
                     lh = loop_headers(body)
-                    for k in sorted(loops, reverse=True):
+                    for k in sorted(set(loops) | set(name_iter), reverse=True):
                         if k > len(lh):
                             raise ExtractError('%s: loop %d not found' % (ident, k))
                         pos = lh[k - 1]
-                        ins = '\n' + '\n'.join('        ' + c for c in loops[k]) + '\n    '
-                        body = body[:pos] + ins + body[pos:]
-                        changes.append('loop %d: inserted %d clause line(s)' % (k, len(loops[k])))
+                        if k in loops:
+                            ins = '\n' + '\n'.join('        ' + c for c in loops[k]) + '\n    '
+                            body = body[:pos] + ins + body[pos:]
+                            changes.append('loop %d: inserted %d clause line(s)' % (k, len(loops[k])))
+                        if k in name_iter:
+                            kw = body.rfind('for', 0, pos)
+                            hm = re.match(r'^for\s+(.+?)\s+in\s+(.+?)\s*$', body[kw:pos], re.S)
+                            if kw < 0 or not hm:
+                                raise ExtractError('%s: loop %d is not a `for PAT in EXPR` loop' % (ident, k))
+                            body = body[:kw] + 'for %s in %s: %s ' % (hm.group(1), name_iter[k], hm.group(2)) + body[pos:]
+                            changes.append('loop %d: iterator named `%s`' % (k, name_iter[k]))
                 for a, b in substs:
                     if hasattr(a, 'pattern'):
                         body, n = a.subn(b, body)
@@ -280,7 +323,17 @@ def process_template(tmpl_text, repo):
                 if specs:
                     head = head.rstrip() + '\n' + '\n'.join('    ' + c for c in specs) + '\n'
                     changes.append('inserted %d spec clause line(s)' % len(specs))
+                if body_start:
+                    body = '{\n' + '\n'.join('        ' + c for c in body_start) + body[1:]
+                    changes.append('inserted %d ghost line(s) at the start of the body' % len(body_start))
                 text = head + body
+            elif exec_static:
+                m = re.match(r'^\s*(?:pub(?:\([a-z:]+\))?\s+)?static\s+(\w+)\s*:\s*&(?:\'static\s+)?str\s*=\s*("(?:[^"\\]|\\.)*")\s*;\s*$', text, re.S)
+                if not m:
+                    raise ExtractError('%s: not a `static NAME: &str = "literal";` item' % ident)
+                lits[m.group(1)] = m.group(2)
+                text = "exec static %s: &'static str\n    ensures %s@ == %s@\n{ %s }" % (m.group(1), m.group(1), m.group(2), m.group(2))
+                changes.append("static rewritten as `exec static` with an ensures clause stating its own literal")
             if pre:
                 text = '\n'.join(pre) + '\n' + text
                 changes.append('prefixed %d line(s): %s' % (len(pre), ' | '.join(pre)))
@@ -292,7 +345,7 @@ def process_template(tmpl_text, repo):
             continue
         if ln.startswith('//@range'):
             attrs = dict(re.findall(r'(\w+)=("[^"]*"|\S+)', ln))
-            attrs = {k: v.strip('"') for k, v in attrs.items()}
+            attrs = {k: v.strip('"').replace('\\n', '\n') for k, v in attrs.items()}
             directives = []
             i += 1
             while not lines[i].startswith('//@end'):
@@ -305,12 +358,35 @@ def process_template(tmpl_text, repo):
                 raise ExtractError('anchor lost: %s missing' % attrs['file'])
             start, end, ob = find_item(src, 'fn', attrs['fn'], attrs.get('impl'))
             fbody = src[ob + 1:end - 1]
-            pos = fbody.find(attrs['after'])
+            # start of the range: after the text `after`, or at the text `from`
+            # (the nth occurrence when nth= is given)
+            key = 'after' if 'after' in attrs else 'from'
+            pos = -1
+            for _ in range(int(attrs.get('nth', '1'))):
+                pos = fbody.find(attrs[key], pos + 1)
+                if pos < 0:
+                    break
             if pos < 0:
-                raise ExtractError('anchor lost: statement %r not found in %s' % (attrs['after'], attrs['fn']))
-            body = fbody[pos + len(attrs['after']):]
+                raise ExtractError('anchor lost: statement %r not found in %s' % (attrs[key], attrs['fn']))
+            rstart = pos + len(attrs[key]) if key == 'after' else pos
+            # end of the range: before the text `until`, or the brace block
+            # opened by the last `{` of the `from` text (balanced), or the end of the fn
+            if 'until' in attrs:
+                rend = fbody.find(attrs['until'], rstart)
+                if rend < 0:
+                    raise ExtractError('anchor lost: end text %r not found in %s' % (attrs['until'], attrs['fn']))
+            elif 'balanced' in attrs:
+                obr = fbody.rfind('{', pos, pos + len(attrs[key]))
+                if obr < 0:
+                    raise ExtractError('balanced range: anchor %r has no `{`' % attrs[key])
+                rend = match_brace(fbody, obr) + 1
+            else:
+                rend = len(fbody)
+            body = fbody[rstart:rend]
             sha = hashlib.sha256(body.encode()).hexdigest()
-            ident = '%s:%s%s[after %s]' % (attrs['file'], (attrs['impl'] + '::') if attrs.get('impl') else '', attrs['fn'], attrs['after'])
+            ident = '%s:%s%s[%s %s%s]' % (attrs['file'], (attrs['impl'] + '::') if attrs.get('impl') else '', attrs['fn'], key, attrs[key],
+                                          (' until ' + attrs['until']) if 'until' in attrs else (' (balanced block)' if 'balanced' in attrs else ''))
+            ident = ident.replace('\n', '\\n')
             hashes[ident] = sha
             changes = ['statement range wrapped in a function whose parameters are its free variables']
             header = None
@@ -320,6 +396,9 @@ def process_template(tmpl_text, repo):
             after_loop = {}
             substs = []
             before_text = []
+            lsubsts = []
+            tail = []
+            head_ins = []
             for d in directives:
                 m = re.match(r'^//@\s+header:\s?(.*)$', d)
                 if m:
@@ -349,9 +428,32 @@ def process_template(tmpl_text, repo):
                 if m:
                     before_text.append((m.group(1), m.group(2)))
                     continue
+                m = re.match(r'^//@\s+subst:\s?(.*?) => (.*)$', d)
+                if m:
+                    lsubsts.append((m.group(1).replace('\\n', '\n'), m.group(2).replace('\\n', '\n')))
+                    continue
+                m = re.match(r'^//@\s+tail:\s?(.*)$', d)
+                if m:
+                    tail.append(m.group(1))
+                    continue
+                m = re.match(r'^//@\s+head:\s?(.*)$', d)
+                if m:
+                    head_ins.append(m.group(1))
+                    continue
                 if d.strip() == '//@':
                     continue
                 raise ExtractError('bad directive: ' + d)
+            for a, b in lsubsts:
+                if a not in body:
+                    raise ExtractError('%s: subst source text %r not found (code changed?)' % (ident, a))
+                body = body.replace(a, b)
+                changes.append('subst %r => %r' % (a, b))
+            if head_ins:
+                body = ' '.join(head_ins) + '\n        ' + body
+                changes.append('wrapped: text %r put in front of the range' % ' '.join(head_ins))
+            if tail:
+                body = body.rstrip() + '\n        ' + '\n        '.join(tail) + '\n'
+                changes.append('appended result expression: %s' % ' '.join(tail))
             for anchor, ghost in before_text:
                 p = body.find(anchor)
                 if p < 0:
